@@ -38,7 +38,8 @@ Record icase := {
   i_krs : tbl;                        (* insert: rows as stored *)
   i_listed : option (list key);
   i_last_id : Z;
-  i_step : Z;                         (* auto_increment_increment of the session *)
+  i_step : Z;
+  i_auto : bool;                      (* the table has an AUTO_INCREMENT key column *)                         (* auto_increment_increment of the session *)
   i_ok : bool;                        (* observed *)
   i_before : image;
   i_after : image;
@@ -56,7 +57,10 @@ Definition model_res (c : icase) : res :=
   | 3 => (* upsert: i_cols = columns assigned by ON DUPLICATE KEY UPDATE; the effect on a colliding row is read off the observed table *)
       at_upsert (i_pk c) all (existsb (fun col => mem_nat col (i_pk c)) (i_cols c)) (i_m c)
                 (fun r => match lookup (key_of (i_pk c) r) (i_ta c) with Some r' => r' | None => r end) (i_krs c) (i_tb c)
-  | _ => at_insert (tracked (i_only_care c) (i_ncols c) (i_pk c) (i_cols c)) (i_krs c) (i_listed c) (i_last_id c, i_step c) (i_tb c)
+  | _ =>
+      let trk := tracked (i_only_care c) (i_ncols c) (i_pk c) (i_cols c) in
+      if i_auto c then at_insert trk (i_krs c) (i_listed c) (i_last_id c, i_step c) (i_tb c)
+      else at_insert_plain trk (i_krs c) (i_listed c) (i_tb c)
   end.
 
 Definition check_icase (c : icase) : list N :=
@@ -78,7 +82,7 @@ Definition mismatches (cs : list icase) : list (nat * N) :=
 (* which theorem hypotheses hold of a case (measured domain coverage) *)
 Definition in_domain (c : icase) : bool :=
   match i_kind c with
-  | 2 => insert_supported (i_listed c) (List.length (i_krs c))
+  | 2 => negb (i_auto c) || insert_supported (i_listed c) (List.length (i_krs c))
   | _ => forallb (fun k => mem k (i_tb c)) (i_m c)
   end.
 Definition domain_count (cs : list icase) : nat := List.length (filter in_domain cs).
